@@ -73,6 +73,12 @@ func c18Eval(c *Ctx, cs *c18Case, o c18Out) {
 	if cs.Known {
 		c.Res.Hit("stream/known-findings/" + cs.Kind)
 	}
+	if cs.Vals != "" && cs.Vals != "pos" {
+		c.Res.Hit("values-" + cs.Vals + "/" + cs.Kind)
+	}
+	if cs.Opts.Unit != "" {
+		c.Res.Hit("output-unit/" + cs.Opts.Unit)
+	}
 	if o.err != "" {
 		c.Res.Hit("run-error/" + cs.Kind + "/" + firstWord(o.err))
 		if len(c.Res.Notes) < 12 {
@@ -96,7 +102,19 @@ func c18Eval(c *Ctx, cs *c18Case, o c18Out) {
 			c.Res.Hit("dot-invalid/" + site)
 			c.Violation("C18/dot/site="+site, fmt.Sprintf("DOT output does not %s under the Graphviz grammar (site %s, hot position %s): %s", res.Stage, site, cs.Hot, trunc(c18Excerpt(o.out, cs.Marker))), cs)
 		case len(res.Undeclared) > 0:
-			c.Violation("C18/dot/edge-endpoint-undeclared", fmt.Sprintf("edge endpoint %q is not a declared node", res.Undeclared[0]), cs)
+			sig, why := "C18/dot/edge-endpoint-undeclared", ""
+			if res.Undeclared[0] == "N0" {
+				// nodeIDMap lookup of a node that is not in Graph.Nodes
+				if cs.Kind == "compose" {
+					sig += "/edge-to-unlisted-node"
+					why = " (an edge of the graph ends at a node that is not in Graph.Nodes)"
+				} else {
+					sig += "/zero-node-dropped"
+					why = " (graph construction dropped a node whose flat and cum are 0, or a negative one, but kept the edges to it)"
+				}
+			}
+			c.Res.Hit("dot-invalid/" + strings.TrimPrefix(sig, "C18/dot/"))
+			c.Violation(sig, fmt.Sprintf("edge endpoint %q is not a declared node%s", res.Undeclared[0], why), cs)
 		default:
 			c.Res.Hit(fmt.Sprintf("dot-ok/nodes<=%d", c18Bucket(len(res.Nodes))))
 			if len(res.Edges) > 0 {
@@ -300,6 +318,7 @@ func runC18(c *Ctx) {
 		}
 		rr := r.Fork()
 		cs.Look = c18SetLook(rr)
+		cs.Vals = c18SetVals(rr, cs.Kind == "callgrind-cli")
 		cs.Prof = c18GenProf(rr, hot, cs.Marker, true, false)
 		cs.Opts = c18GenOpts(rr, cs.Prof, hot)
 		if cs.Kind == "dot-cli" && rr.Chance(25) && len(cs.Prof.Samples) > 0 && len(cs.Prof.Samples[0].Labels) > 0 {
@@ -373,6 +392,7 @@ func runC18(c *Ctx) {
 		rr := r.Fork()
 		known := cs.Kind == "callgrind-report" && i%4 == 3
 		cs.Look = c18SetLook(rr)
+		cs.Vals = c18SetVals(rr, cs.Kind == "callgrind-report")
 		cs.Prof = c18GenProf(rr, hot, cs.Marker, cs.Kind == "dot-report", cs.Kind == "callgrind-report" && !known)
 		cs.Opts = c18GenOpts(rr, cs.Prof, hot)
 		if cs.Kind == "callgrind-report" {
@@ -394,6 +414,7 @@ func runC18(c *Ctx) {
 		cs := &c18Case{Kind: "html", Hot: hot, Marker: marker(n)}
 		rr := r.Fork()
 		cs.Look = c18SetLook(rr)
+		cs.Vals = c18SetVals(rr, false)
 		cs.Prof = c18GenHTMLProf(rr, hot, cs.Marker)
 		c18EvalHTML(c, cs)
 	}
